@@ -609,6 +609,13 @@ def clause_props(src):
     return None, src
 
 
+def in_force(src, prop):
+    """a clause tagged [Cxx,...] belongs to the contracts of those properties only: it is neither assumed nor
+    checked when another property is decided ([def] clauses, ghost definitions, are assumed at call sites only)"""
+    props, _ = clause_props(src)
+    return props is None or prop in props
+
+
 def parse_clause(src):
     return ast.parse(clause_props(src)[1], mode="eval").body
 
@@ -759,6 +766,8 @@ def apply_contract(E, st, c, selfv, args, kwargs):
     # preconditions are obligations of the caller
     if not E.spec_mode:
         for i, r in enumerate(c.requires):
+            if not in_force(r, E.prop):
+                continue
             g = E.spec_bool(r, st, env, st)
             ob = E.obl("%s.%s.pre@%s.%d" % (E.prop, top.qual.partition(":")[2], c.name, i), "pre", text=r)
             ob.add(st.pc, g, note="call of %s" % c.qual)
@@ -789,10 +798,8 @@ def apply_contract(E, st, c, selfv, args, kwargs):
             ok = True
             for e in c.ensures:
                 props, _txt = clause_props(e)
-                if props is not None and props == {"def"}:
-                    pass  # a ghost definition: names (part of) the callee's result, nothing to prove
-                elif props is not None and E.prop not in props and not c.assumed:
-                    E.trusted.add("clause of %s decided under %s and assumed here: %s" % (c.name, "/".join(sorted(props)), _txt[:80]))
+                if props is not None and props != {"def"} and E.prop not in props:
+                    continue  # clause of another property's contract: not in force here
                 s2 = s2.assume(E.spec_bool(e, s2, env2, st))
             if len(alts(c.returns)) > 1 and not E.feasible(s2):
                 continue
